@@ -752,17 +752,19 @@ pub fn c17(out: &mut Out, rng: &mut Sm, thorough: bool) {
         for _ in 0..(if thorough { 4 } else { 2 }) {
             let ctx = rng.bytes(3);
             let nonce: [u8; 16] = rng.bytes(16).try_into().unwrap();
-            let random = random128(rng);
             let a = rand_bits(rng, bits);
             let mut b = rand_bits(rng, bits);
             if a == b {
                 b[0] = !b[0];
             }
-            let (Some(ra), Some(rb)) = (shard(out, bits, &ctx, &a, &nonce, &random), shard(out, bits, &ctx, &b, &nonce, &random)) else { continue };
-            let case = || format!("poplar1 independence bits={}", bits);
-            out.oracle(ra.shares[0] == rb.shares[0] && ra.shares[1] == rb.shares[1], case, || "an input share depends on the measurement".into());
-            out.oracle(ra.public != rb.public, case, || "the public share does not depend on the measurement".into());
-            out.count("c17.poplar1");
+            // random and structured randomness (zeros, equal 16-byte blocks: the two IDPF keys coincide)
+            for random in crate::prio3::structured_randomness(rng, 128, 16) {
+                let random: [u8; 128] = random.try_into().unwrap();
+                let (Some(ra), Some(rb)) = (shard(out, bits, &ctx, &a, &nonce, &random), shard(out, bits, &ctx, &b, &nonce, &random)) else { continue };
+                let case = || format!("poplar1 independence bits={} randomness={}", bits, hex(&random[..48]));
+                out.oracle(ra.shares[0] == rb.shares[0] && ra.shares[1] == rb.shares[1], case, || "an input share depends on the measurement".into());
+                out.count("c17.poplar1");
+            }
         }
     }
 }
